@@ -314,6 +314,11 @@ def transition_lookup_rules(ctx):
     ht = F.fn(r"CompiledScannerMode::has_transition$")
     adapters = [M.call_name(t) for bb, t in ht.calls(r"iter::Iterator>::(rev|skip|take|filter|step_by|skip_while|take_while)")]
     ctx.ob("C06.d", "no-iterator-adapters", not adapters, "iterator adapters in has_transition: %s" % adapters, ht.loc())
+    # ... and over the whole list: the walked collection is self.transitions itself (not a sub-slice of it)
+    from .common import loop_sources
+    exs, pss = run_fn(ht, F, Model(), desugar=r".")
+    srcs = sorted(set(s_ for _, s_ in loop_sources(exs, pss)))
+    ctx.ob("C06.d", "search-walks-the-whole-transition-list", bool(srcs) and all(re.match(r"^[&*(]*self\.transitions\)?$", s_) or re.match(r"^(Iterator>::)?(enumerate|copied|cloned)\([&*]*self\.transitions\)$", s_) for s_ in srcs), "walks %s" % srcs, ht.loc())
     # ScannerImpl::has_transition forwards to the current mode
     sh = F.fn(r"ScannerImpl::has_transition$")
     ex, paths = run_fn(sh, F, Model())
